@@ -24,6 +24,7 @@ type ident struct {
 	kind byte         // 'X' native, 'S' passphrase, 'E' ssh-ed25519, 'R' ssh-rsa, 'e'/'r' passphrase-protected ssh key
 	id   age.Identity // the real identity (code under test)
 	ref  refage.Key   // reference counterpart; nil for 'e'/'r'
+	half string       // public half computed from key material (gen.go); never empty
 }
 
 // typed reports whether the property demands the dedicated error for this
@@ -64,6 +65,7 @@ type fileCase struct {
 	bin   []byte // binary age file written by age.Encrypt (code under test)
 	text  []byte // armored form (nil unless armored)
 	pt    []byte
+	want  map[string]bool // public halves of the recipients the caller handed to Encrypt
 }
 
 func (f *fileCase) armored() bool { return f.text != nil }
@@ -136,15 +138,34 @@ func (m *monitor) replayData(stage string, f *fileCase, ids []ident, info map[st
 //     *age.NoIdentityMatchError (errors.As) whose Errors has one element per
 //     identity, each of which errors.Is age.ErrIncorrectIdentity.
 //
-// Before the real call the premise "no identity corresponds to a recipient" is
-// established independently: the reference implementation must find no match
-// for the reference counterparts of ids on the same bytes.
+// The premise — "none of the identities corresponds to a recipient" — is about
+// what the CALLER asked for: the public halves of ids (computed from key
+// material, gen.go) must be disjoint from the halves of the recipients handed
+// to Encrypt (f.want). It is never decided by looking at the file: a library
+// that writes a file some other key can open has not made the identities
+// "matching", it has violated the property. A coincidence of halves means the
+// generator produced a list that is not disjoint (the known sources — clamped
+// secret bits, NUL-padded passphrases — are dropped by the stages before they
+// get here); it is counted and makes the run inconclusive, never "held".
+//
+// The reference implementation is then asked about the same bytes and keys,
+// as a diagnosis only: if it opens the file too, the encrypting side did not
+// bind the requested recipient; if it does not, the decrypting side let a
+// wrong key through.
 func (m *monitor) check(stage, class string, f *fileCase, ids []ident, info map[string]any) {
 	r := m.r
 	caseName := fmt.Sprintf("%s | %s | armored=%v | ids=%s", stage, f.desc, f.armored(), strings.Join(descsOf(ids), " "))
 	if ph, ok := info["phase"].(string); ok {
 		caseName += " | phase=" + ph
 	}
+	for _, i := range ids {
+		if i.half == "" || f.want[i.half] {
+			r.Count("premise_failures_unexplained", 1)
+			r.Inconclusive("generator error: %s: identity %s is not disjoint from the requested recipients (half %q); case not judged", caseName, i.desc, i.half)
+			return
+		}
+	}
+	r.Count("premise_disjoint_public_halves", 1)
 
 	var refs []refage.Key
 	for _, i := range ids {
@@ -152,12 +173,21 @@ func (m *monitor) check(stage, class string, f *fileCase, ids []ident, info map[
 			refs = append(refs, i.ref)
 		}
 	}
+	refOpens, refNote := false, "the reference has no counterpart for these identities"
 	if len(refs) > 0 {
-		if _, err := refage.Decrypt(f.bin, refs...); err != refage.ErrNoIdentity {
-			r.Inconclusive("premise not established for %s: the reference does not report no-match (%v); case skipped", caseName, err)
-			return
+		o, rerr := refage.Decrypt(f.bin, refs...)
+		switch {
+		case rerr == refage.ErrNoIdentity:
+			refNote = "the reference finds no match for these keys in the file, so the decrypting side let a non-matching identity through"
+			r.Count("reference_agrees_no_match", 1)
+		case rerr == nil:
+			refOpens = true
+			refNote = fmt.Sprintf("the file the library wrote for the requested recipients also opens with these keys under the reference (%d plaintext bytes, equal: %v): the encrypting side did not bind the recipient",
+				len(o.Plaintext), bytes.Equal(o.Plaintext, f.pt))
+		default:
+			refOpens = true
+			refNote = fmt.Sprintf("the reference does not report no-match for these keys either (%v)", rerr)
 		}
-		r.Count("premise_confirmed_by_reference", 1)
 	}
 
 	var src io.Reader = bytes.NewReader(f.bin)
@@ -197,9 +227,16 @@ func (m *monitor) check(stage, class string, f *fileCase, ids []ident, info map[
 		var rerr error
 		r.Guard(stage+":"+class+":read", func() { got, rerr = io.ReadAll(io.LimitReader(rd, int64(len(f.pt))+1<<16)) })
 		m.violate("reader-returned", stage, class,
-			fmt.Sprintf("%s: Decrypt returned a reader (err=%v); reading it gave %d bytes (equal to the plaintext: %v) then %v",
-				caseName, err, len(got), bytes.Equal(got, f.pt), rerr), replay())
+			fmt.Sprintf("%s: Decrypt returned a reader (err=%v); reading it gave %d bytes (equal to the plaintext: %v) then %v. Diagnosis: %s",
+				caseName, err, len(got), bytes.Equal(got, f.pt), rerr, refNote), replay())
 		return
+	}
+	if refOpens {
+		// age refused (as it must) but the reference accepts keys the caller
+		// never addressed: either the file is not what was asked for or the
+		// reference is wrong. Not a C04 violation by itself, but never "held".
+		r.Count("premise_failures_unexplained", 1)
+		r.Inconclusive("%s: age.Decrypt refused, but %s", caseName, refNote)
 	}
 	if err == nil {
 		m.violate("nil-reader-nil-error", stage, class, caseName+": Decrypt returned (nil, nil)", replay())
